@@ -72,3 +72,71 @@ func VerifC05Burst() {
 	}
 	vstub.Cover("recovered")
 }
+
+// VerifC05WriteDuringMerge: a local write starts at ANY visible step of the
+// replication of a remote batch (fetches, join, cache writes, events of
+// replicationLoadComplete) and runs until it blocks.  The disk image is captured
+// at the instant the write is acknowledged (a crash right there) and again after
+// a clean close: a store reopened over either image and loaded holds the
+// acknowledged entry; over the clean-close image it also holds the replicated one.
+func VerifC05WriteDuringMerge() {
+	blocks := vstub.NewBlocks(nil)
+	a, envA := openWith("a", blocks, nil, nil)
+	b, _ := openWith("b", blocks, nil, nil)
+	if a == nil || b == nil {
+		return
+	}
+	ctx := context.Background()
+	addN(a, 1, 'q')
+	addN(b, 1+vstub.NdChoice("remote-entries", 2), 'r')
+	remote := b.OpLog().Heads().Slice()[0]
+	var acked ipfslog.Entry
+	var crashImage *vstub.Cache
+	done := make(chan struct{})
+	fired := false
+	write := func() {
+		defer close(done)
+		e, err := a.AddOperation(ctx, operation.NewOperation(nil, "ADD", []byte("during-merge")), nil)
+		if err != nil {
+			vstub.Fail("C05 AddOperation during a merge failed")
+			return
+		}
+		acked = e
+		crashImage = envA.Cache.Clone()
+	}
+	vstub.FaultAtAnyStep(func() { fired = true; go write() })
+	_ = a.Sync(ctx, []ipfslog.Entry{remote.Copy()})
+	vstub.WaitIdle()
+	vstub.FaultDisarm()
+	if !fired {
+		go write()
+	}
+	<-done
+	vstub.WaitIdle()
+	if acked == nil {
+		return
+	}
+	vstub.Cover("written-during-merge")
+	_ = a.Close()
+	vstub.WaitIdle()
+	reload := func(img *vstub.Cache, what string, wantRemote bool) {
+		r, _ := openWith("a", blocks, img, nil)
+		if r == nil {
+			return
+		}
+		if err := r.Load(ctx, -1); err != nil {
+			vstub.Fail("C05 Load failed (" + what + ")")
+			return
+		}
+		vstub.WaitIdle()
+		vstub.Assert(inLog(r, acked), "C05 a write acknowledged while a replicated batch was being merged survives "+what)
+		if wantRemote {
+			vstub.Assert(inLog(r, remote), "C05 the replicated batch survives "+what)
+		}
+		_ = r.Close()
+		vstub.WaitIdle()
+	}
+	reload(crashImage, "a crash right after its acknowledgement", false)
+	reload(envA.Cache.Clone(), "a clean close", true)
+	vstub.Cover("recovered")
+}
